@@ -1223,7 +1223,7 @@ class TermEngine(Engine):
             return None
         def own_jumps(nodes):
             for n in nodes:
-                if isinstance(n, (ast.Break, ast.Continue)):
+                if isinstance(n, ast.Break):
                     return True
                 if isinstance(n, (ast.For, ast.While, ast.AsyncFor, ast.FunctionDef, ast.AsyncFunctionDef, ast.ClassDef, ast.Lambda)):
                     continue
@@ -1238,8 +1238,10 @@ class TermEngine(Engine):
             for n in nodes:
                 if isinstance(n, (ast.Assign, ast.AugAssign, ast.AnnAssign)):
                     tg = n.targets if isinstance(n, ast.Assign) else [n.target]
-                    if not all(isinstance(t, ast.Name) for t in tg):
+                    if not all(isinstance(t, ast.Name) or (isinstance(t, ast.Attribute) and isinstance(t.value, ast.Name)) for t in tg):
                         return False
+                elif isinstance(n, ast.Continue):
+                    continue
                 elif isinstance(n, ast.If):
                     if not (pure(n.body) and pure(n.orelse)):
                         return False
@@ -1280,7 +1282,7 @@ class TermEngine(Engine):
                     bo = self.block(s.body, st1)
                     out.returns += bo.returns
                     out.raises += bo.raises
-                    nxt += bo.normal
+                    nxt += bo.normal + bo.continues
                 j = self._join(nxt)
                 cur = [j] if j is not None else []
                 if not cur:
